@@ -245,6 +245,32 @@ func genC10(r *Rand, tier string) *Case {
 		L := r.PickInt(16, 64, 1000, 4096, 65536)
 		return c10Silent(L, r.Pick("startup", "password"), uint32(r.PickInt(L+5, 2*L, 1<<20, 0x7fffffff, 0xffffffff)), r.PickInt(5, 6, 8, 12, 60))
 	}
+	if r.Chance(1, 30) {
+		// one to three headers that declare a length below 4, then - if the server
+		// is still there - an oversized message and a probe query: whatever the
+		// too-short headers left behind, the oversized body is skipped in full
+		L := r.PickInt(64, 256, 1000, 4096)
+		c := &Case{Variant: "subminimum-then-oversized", Server: ServerCfg{Limit: L}, Programs: map[string]*Program{probeKey: probeProgram()}}
+		var msgs []pgwire.FMsg
+		for k := r.Range(1, 3); k > 0; k-- {
+			msgs = append(msgs, pgwire.FMsg{K: "typed", T: byte(r.Pick("Q", "P", "B", "E", "S", "d")[0]), DeclLen: u32p(uint32(r.Intn(4)))})
+		}
+		if r.Bool() {
+			msgs = append(msgs, pgwire.FMsg{K: "Q", S1: probeKey})
+		}
+		body := int64(L) + int64(r.PickInt(1, 19, 38, L, 2*L+7))
+		msgs = append(msgs, pgwire.FMsg{K: "typed", T: byte(r.Pick("Q", "Q", "d", "P")[0]), Pad: body, PadPat: injectedPattern()}, pgwire.FMsg{K: "S"}, pgwire.FMsg{K: "Q", S1: probeKey})
+		steps := []Step{{Msgs: []pgwire.FMsg{{K: "startup", KV: [][2]string{{"user", "u"}}}}}}
+		if r.Bool() {
+			steps = append(steps, Step{Msgs: msgs})
+		} else {
+			for i := range msgs {
+				steps = append(steps, Step{Msgs: msgs[i : i+1]})
+			}
+		}
+		c.Conns = []ConnCase{{Steps: steps, Cuts: genCuts(r), Measure: true}}
+		return c
+	}
 	L := r.PickInt(5, 16, 64, 100, 1000, 4095, 4096, 4097, 65536)
 	if r.Chance(1, 60) {
 		L = r.PickInt(0, -1)
@@ -530,6 +556,28 @@ func checkC10(x *Exec, c *Case) ([]Violation, bool) {
 			if strings.Trim(tail, "EZ") != "" || strings.Count(tail, "E") > 1 {
 				add("undersized-length-reply", "subminimum reply "+tail, fmt.Sprintf("conn %d: a declared length below 4 was answered with %q (want an ErrorResponse or connection end)", i, tail))
 			}
+		case "subminimum-then-oversized":
+			nt = true
+			// either the server gave the connection up at a too-short header
+			// (only ErrorResponses so far, input left unread), or it went on: then
+			// every later message is handled as if the headers had never been
+			// there - the oversized body skipped in full, the probe answered
+			zi := strings.IndexByte(kinds, 'Z')
+			if zi < 0 {
+				break
+			}
+			tail := kinds[zi+1:]
+			sawEOF := false
+			for _, e := range cs.Events {
+				if e.K == "read" && e.S == "eof" {
+					sawEOF = true
+				}
+			}
+			if strings.Trim(tail, "EZC") != "" {
+				add("undersized-length-reply", "subminimum-then-oversized kinds", fmt.Sprintf("conn %d: unexpected messages after headers with a declared length below 4: %q", i, tail))
+			} else if sawEOF && !(strings.HasSuffix(kinds, "CZ") && t.Msgs[len(t.Msgs)-2].Tag == "PROBE OK") {
+				add("no-recovery-after-undersized-length", "subminimum-then-oversized no recovery", fmt.Sprintf("conn %d: the server read its input to the end, but the query behind the oversized message (which followed headers declaring a length below 4) was not answered normally: %q", i, kinds))
+			}
 		case "truncated":
 			nt = true
 			// the declared body never arrives: nothing may be executed for it
@@ -589,7 +637,7 @@ func checkC10(x *Exec, c *Case) ([]Violation, bool) {
 func init() {
 	register(&Prop{
 		ID: "C10", Level: "exploration", QuickS: 25, ThoroughS: 420,
-		Rule:       "enumerated boundary grid (limits {5,16,64,100,1000,4095,4096,4097,65536} x message types {Q,P,B,D,E,C,H,S,X,d,c,f,unknown} x declared body {L-1,L,L+1} x position {first, after a simple cycle, inside a pipelined extended batch, while discarding after a failed extended message}; startup packets and password messages of body {L-1,L,L+1,2L}; declared lengths 0-3 for five message types and the startup packet) plus seeded cases (the same dimensions with bodies 2L, 2L+1, 64 MiB, 2^31-5, 2^32-5, fully supplied by a synthetic pattern that spells valid protocol messages or cut short, default limit for a small share, arbitrary segmentation of the skipped body, oversized CopyData / CopyFail / foreign messages inside COPY mode); judged by the size-rule model (the ReadyForQuery after the 54000 error is optional here), 'no callback sees a byte of a skipped body', a per-step allocation bound of 4L+16MiB measured from runtime/metrics, and recovery of the following message; oversized messages delivered in two flights (header and part of the body first: nothing is answered before the message has been skipped in full); one read of the exchange reports a transient timeout (no byte lost): compared with the undisturbed run - identical if the server carries on, a prefix if it gives the connection up; a third of the seeded cases put legal traffic in front of the sized message that leaves the read window in another state (one legal message of 4096 / 4097 / 5000 / L-1 / L bytes, parsed or - a stray CopyData, a large chunk inside COPY - never consumed; runs of small queries whose bodies add up to totals around 4096 and 8192); non-trivial = the case contains a message at or beyond the boundary; distinct = distinct case content hashes",
+		Rule:       "enumerated boundary grid (limits {5,16,64,100,1000,4095,4096,4097,65536} x message types {Q,P,B,D,E,C,H,S,X,d,c,f,unknown} x declared body {L-1,L,L+1} x position {first, after a simple cycle, inside a pipelined extended batch, while discarding after a failed extended message}; startup packets and password messages of body {L-1,L,L+1,2L}; declared lengths 0-3 for five message types and the startup packet) plus seeded cases (the same dimensions with bodies 2L, 2L+1, 64 MiB, 2^31-5, 2^32-5, fully supplied by a synthetic pattern that spells valid protocol messages or cut short, default limit for a small share, arbitrary segmentation of the skipped body, oversized CopyData / CopyFail / foreign messages inside COPY mode); judged by the size-rule model (the ReadyForQuery after the 54000 error is optional here), 'no callback sees a byte of a skipped body', a per-step allocation bound of 4L+16MiB measured from runtime/metrics, and recovery of the following message; oversized messages delivered in two flights (header and part of the body first: nothing is answered before the message has been skipped in full); one read of the exchange reports a transient timeout (no byte lost): compared with the undisturbed run - identical if the server carries on, a prefix if it gives the connection up; headers declaring a length below 4 followed by an oversized message and a probe (either the connection is given up there, or everything behind is handled as if the headers had never been sent); a third of the seeded cases put legal traffic in front of the sized message that leaves the read window in another state (one legal message of 4096 / 4097 / 5000 / L-1 / L bytes, parsed or - a stray CopyData, a large chunk inside COPY - never consumed; runs of small queries whose bodies add up to totals around 4096 and 8192); non-trivial = the case contains a message at or beyond the boundary; distinct = distinct case content hashes",
 		Exhaustive: "the boundary grid listed in the rule is enumerated completely in both tiers",
 		Components: e1Components, Assumptions: commonAssumptions,
 		Fixed: c10Fixed,
